@@ -1171,6 +1171,24 @@ func capRun(e *Env) {
 	c.HandleFunc(client.DISCONNECTED, func(*client.Conn, *client.Line) { discs++ })
 	var l *simnet.Link
 	var got []string
+	// whom the server addresses its CAP replies to: before the welcome it has
+	// its own idea of the client's name ("*", the nick, a bouncer's placeholder,
+	// a truncated nick); the replies mean the same whatever it writes there
+	idStyle := g.W(5, 2, 2, 1)
+	capID := func() string {
+		switch idStyle {
+		case 1:
+			return "*"
+		case 2:
+			return []string{"unknown-nick", "m", "ME"}[g.S.Choose(3)]
+		case 3:
+			return []string{"*", "me", "unknown-nick"}[g.S.Choose(3)]
+		}
+		if g.S.Choose(2) == 0 {
+			return "*"
+		}
+		return "me"
+	}
 	e.LinkPlan = func(l *simnet.Link) { l.ChunkMode = g.Intn(4) }
 	done := false
 	enabled := map[string]bool{}
@@ -1209,7 +1227,7 @@ func capRun(e *Env) {
 			}
 			// unrelated traffic interleaved
 			l.SendLine(":irc.sim NOTICE * :*** Looking up your hostname")
-			l.SendLine(":irc.sim CAP * LS :" + strings.Join(advertised, " "))
+			l.SendLine(":irc.sim CAP "+capID()+" LS :" + strings.Join(advertised, " "))
 			var reqs [][]string
 			if len(inter) == 0 {
 				ln, ok := nextLine()
@@ -1266,7 +1284,7 @@ func capRun(e *Env) {
 						}
 					}
 					if reply == 1 {
-						l.SendLine(":irc.sim CAP me NAK :" + strings.Join(caps, " "))
+						l.SendLine(":irc.sim CAP "+capID()+" NAK :" + strings.Join(caps, " "))
 						ln, ok := nextLine()
 						e.Check()
 						if !ok || ln != "CAP END" {
@@ -1300,7 +1318,7 @@ func capRun(e *Env) {
 							return
 						}
 					}
-					l.SendLine(":irc.sim CAP me ACK :" + strings.Join(caps, " "))
+					l.SendLine(":irc.sim CAP "+capID()+" ACK :" + strings.Join(caps, " "))
 					for _, cp := range caps {
 						enabled[cp] = true
 					}
@@ -1371,7 +1389,7 @@ func capRun(e *Env) {
 			l.SendLine(":irc.sim 001 me :Welcome me!u@h")
 			if laterDisable && reply == 0 && len(inter) > 0 {
 				cp := inter[g.S.Choose(len(inter))]
-				l.SendLine(":irc.sim CAP me ACK :-" + cp)
+				l.SendLine(":irc.sim CAP "+capID()+" ACK :-" + cp)
 				enabled[cp] = false
 				e.S.Count("probe.later-ack-disables-capability")
 				// an acknowledgement that takes a capability away starts nothing,
@@ -1388,7 +1406,7 @@ func capRun(e *Env) {
 					if g.S.Choose(2) == 0 {
 						again = strings.Join(inter, " ")
 					}
-					l.SendLine(":irc.sim CAP me ACK :" + again)
+					l.SendLine(":irc.sim CAP "+capID()+" ACK :" + again)
 					enabled[cp] = true
 					e.S.Count("probe.later-ack-enables-capability-again")
 					ln, ok := nextLine()
@@ -1431,7 +1449,7 @@ func capRun(e *Env) {
 				cp := inter[g.S.Choose(len(inter))]
 				nak := []string{cp, "-" + cp, cp + " never-mentioned", strings.Join(inter, " ")}[g.S.Choose(4)]
 				e.S.Count("probe.later-nak-names-a-held-capability")
-				l.SendLine(":irc.sim CAP me NAK :" + nak)
+				l.SendLine(":irc.sim CAP "+capID()+" NAK :" + nak)
 				ln, ok := nextLine()
 				e.Check()
 				if !ok || ln != "CAP END" {
@@ -1526,7 +1544,7 @@ func logRun(e *Env) {
 	if g.Pct(10) {
 		pw = "PASS " + pw
 	}
-	fault := g.W(4, 2, 2, 2, 2, 1, 2) // none, write error at PASS, lost during registration, dial failure first, handler panic, EOF at once, TLS handshake fails first
+	fault := g.W(4, 2, 2, 2, 2, 1, 2, 2) // none, write error at PASS, lost during registration, dial failure first, handler panic, EOF at once, TLS handshake fails first, the server is slow to read
 	// a connection that never comes up has a password too: the attempt may fail
 	// on the library's own dial path as well as behind a proxy
 	direct := g.Pct(30)
@@ -1545,7 +1563,7 @@ func logRun(e *Env) {
 			masked++
 		}
 	}
-	e.Notef("password=%q fault=%s capneg=%v track=%v direct-dial=%v", pw, []string{"none", "write error at the PASS line", "connection lost during registration", "dial failure, then retry", "handler panics after REGISTER", "EOF at once", "TLS handshake fails, then retry in plain"}[fault], capNeg, track, direct)
+	e.Notef("password=%q fault=%s capneg=%v track=%v direct-dial=%v", pw, []string{"none", "write error at the PASS line", "connection lost during registration", "dial failure, then retry", "handler panics after REGISTER", "EOF at once", "TLS handshake fails, then retry in plain", "the server does not read for longer than Config.Timeout"}[fault], capNeg, track, direct)
 	cfg := client.NewConfig("me", "ident", "name")
 	cfg.Pass = pw
 	cfg.EnableCapabilityNegotiation = capNeg
@@ -1563,6 +1581,15 @@ func logRun(e *Env) {
 	if fault == 6 {
 		cfg.SSL = true
 		cfg.SSLConfig = &tls.Config{InsecureSkipVerify: true}
+	}
+	stall := time.Duration(0)
+	if fault == 7 {
+		// the write of the first lines (the PASS line among them) makes no progress
+		// for several times the configured timeout: slow is not an error, and
+		// whatever the client has to say about it must not quote the line
+		cfg.Timeout = []time.Duration{200 * time.Millisecond, time.Second, 5 * time.Second}[g.Intn(3)]
+		stall = cfg.Timeout * time.Duration(2+g.Intn(4))
+		e.S.Count("fault.server-slow-to-read-the-registration")
 	}
 	cfg.Flood = g.Bool()
 	cfg.PingFreq = 0
@@ -1584,6 +1611,9 @@ func logRun(e *Env) {
 			// the TLS ClientHello carries bytes from crypto/rand: sizes only in the event log
 			l.Opaque = true
 		}
+		if fault == 7 {
+			l.Window = []int{1, 4, 16}[g.Intn(3)]
+		}
 		switch fault {
 		case 1:
 			l.WriteErrAtOp = passLine
@@ -1602,6 +1632,9 @@ func logRun(e *Env) {
 			return
 		}
 		e.S.Spawn(fmt.Sprintf("server%d", l.ID), func() {
+			if stall > 0 {
+				simrt.Sleep(stall)
+			}
 			for {
 				ln, ok := l.RecvLineFor(time.Hour)
 				if !ok {
